@@ -16,12 +16,14 @@ AllTargets == IntTargets \o Scalars
 Bounds == UNION { {ZAdd(b, ZFromInt(k)) : k \in {-1, 0, 1}} : b \in UNION {{Lo(IntTargets[i]), Hi(IntTargets[i])} : i \in 1..Len(IntTargets)} }
 BoundVals == {VInt(z) : z \in {b \in Bounds : IntInRange(b)}}
 SeqSet(s) == {s[i] : i \in 1..Len(s)}
-Sources == BoundVals \cup SeqSet(ValsQ)
+\* long strings with a multi-byte character around byte 64: the offending value must come back whole in the error
+LongStrs == {VStr([i \in 1..k |-> 97] \o <<233, 98>>) : k \in 60..66} \cup {VStr([i \in 1..200 |-> 120])}
+Sources == BoundVals \cup SeqSet(ValsQ) \cup LongStrs
 RangeVals(lo, hi) == {I(n) : n \in lo..hi}
 
 \* containers: elements good (convertible to every integer target), bad kind, bad range
 G == I(1)  BK == St("x")  BR == VInt(ZPow2(100))
-Elems == {G, BK, BR, I(-1), I(300)}
+Elems == {G, BK, BR, I(-1), I(300), VStr([i \in 1..63 |-> 97] \o <<233, 98>>)}
 VecSources == {VVec(<<>>)} \cup {VVec(<<a>>) : a \in Elems} \cup {VVec(<<a, b>>) : a, b \in Elems}
               \cup {VVec(<<a, b, d>>) : a, b, d \in {G, BK, BR}}
 MapSources == {VMap(<<>>)} \cup {VMap(<< <<S("a"), a>> >>) : a \in Elems} \cup {VMap(<< <<S("a"), a>>, <<S("b"), b>> >>) : a, b \in Elems}
